@@ -102,6 +102,8 @@ FEATURES = [
     F("typedef-syntax", DEFS="typedef uint7 Seven\n\nmessage UsesSeven {\n    Seven s7 = 1\n}"),
     F("wide-types", DEFS="enum Big : uint64 {\n    BIG_A = 0\n    BIG_B = 18446744073709551615\n}\n\nmessage Wide {\n    uint64 u = 1\n    int64 i = 2\n    Big b = 3\n    int33[2] arr = 4\n}", BOX_EXTRA="    Wide wide = 24"),
     F("numbers-out-of-order", PEN_EXTRA="    bool last_declared_first_number = 9\n    uint3 mid_number = 5"),
+    F("homonym-nested-messages", DEFS="message Truck {\n    message Slot {\n        uint3[2] v = 1\n    }\n    Slot[2] slots = 1\n    Slot one = 2\n}\n\nmessage Ship {\n    message Slot {\n        int9[2] v = 1\n        bool on = 2\n    }\n    Slot[2] slots = 1\n    Slot one = 2\n}", BOX_EXTRA="    Truck truck = 60\n    Ship ship = 61"),
+    F("homonym-nested-enums", DEFS="message Probe {\n    enum Kind : uint3 {\n        KIND_P = 0\n        KIND_Q = 5\n    }\n    Kind[2] kinds = 1\n    Kind kind = 2\n}\n\nmessage Report {\n    enum Kind : uint12 {\n        KIND_R = 0\n        KIND_BIG = 3000\n    }\n    Kind[2] kinds = 1\n    Kind kind = 2\n}", BOX_EXTRA="    Probe probe = 62\n    Report report = 63"),
     F("message-named-like-import", ["shared.bitproto"], DEFS="message Holder {\n    message shared {\n        bool inner = 1\n    }\n    shared sh = 1\n}", tags=["lowercase_message_name"]),
 ]
 FEATURE_INDEX = {f["name"]: k for k, f in enumerate(FEATURES)}
